@@ -72,7 +72,7 @@ var propC04 = &simProp{
 	Profile: func() sim.Profile {
 		p := safetyProfile("C04")
 		p.Patterns = []string{"P6", "P6", "P6", "P11", "P11", "P11", "free", "free", "P1", "P12", "P8", "P22", "P22", "P35", "P35", "stopstart", "reads"} // (no P7/P33: snapshots are off here)
-		p.Snapshots = ""                                                                                                                    // the property quantifies with snapshots off (crash points of compaction and snapshot writes belong to C14)
+		p.Snapshots = ""                                                                                                                                  // the property quantifies with snapshots off (crash points of compaction and snapshot writes belong to C14)
 		p.DiskCheck = true
 		return p
 	}(),
